@@ -503,3 +503,6 @@ func (g *Gen) BoundaryCases(tier string) []BCase {
 	}
 	return out
 }
+
+// NoByteSlices: a slice / array of (named) uint8 is a []byte to reflect; such element types are replaced by uint16.
+func NoByteSlices(gt *GT) *GT { return noByteSlices(gt) }
